@@ -60,15 +60,18 @@ claim("C12",
   ref="DESIGN.md §2 C12")
 
 claim("C14",
-  text="28 Lean theorems about a hand-written model of squeeth/market.py: every accepted mint, collateral withdrawal and LP withdrawal leaves the vault with no debt or "
+  text="33 Lean theorems about a hand-written model of squeeth/market.py: every accepted mint, collateral withdrawal and LP withdrawal leaves the vault with no debt or "
        "with effective collateral (ETH + LP WETH + LP oSQTH at index price) >= 1.5 x debt at TWAP and >= 0.5 ETH (for every rounding context; constants regenerated "
        "from the source); the TWAP window is rows[max 0 (k-6) .. k] on the minute grid; update liquidates exactly the unsafe vaults and leaves safe ones alone; "
        "liquidation redeems the LP first (2 % bounty capped at the vault's ETH), then burns half the debt (all if < 0.5 ETH would remain) against debt x TWAP x 1.1 "
        "capped at collateral; 'Dust vault left' unreachable; amounts never negative for any operation and along paths; mint/burn/deposit/withdraw move exactly the "
-       "stated amounts (or snap within 1e-5 wallet dust). Tied to the code by step-wise bit-exact differential execution against driver_squeeth (operation sequences, "
+       "stated amounts (or snap within 1e-5 wallet dust); the long side (buy_squeeth / sell_squeeth = the pool's buy / sell) is in the model by reuse of the "
+       "Uniswap model: it never touches vaults, positions or vault status, and an accepted trade moves exactly a*p/(1-f) WETH against a oSQTH (buy) and a oSQTH against "
+       "a(1-f)p WETH (sell). Tied to the code by step-wise bit-exact differential execution against driver_squeeth (operation sequences, "
        "exact ties, real Actuator.run bar loops) and an independent exact-Fraction oracle on the implementation's observations.",
   note="The geometric mean (float log/pow) is an oracle value captured from the real calc_twap_price (cross-checked at 1e-9 against a 60-digit mean); only the window "
-       "selection is modelled and proved. Pool orientation token0 = WETH = quote assumed; buy_squeeth/sell_squeeth not modelled. One known finding (closed pool at a "
+       "selection is modelled and proved. Pool orientation token0 = WETH = quote assumed. buy_squeeth/sell_squeeth are modelled through Demeter.Uni.buy/sell (a closed pool does not refuse them, as "
+       "in the code; non-negativity of holdings under a trade needs pool price >= 0 and fee rate <= 1). One known finding (closed pool at a "
        "liquidation bar raises instead of liquidating). Seven fix: commits (751c31f, deb9025, f77c9aa, 517bf82, ce449ad, 4da5e32, a6df880).",
   technique="Lean 4 proof (case analysis, list induction, invariants) + step-wise differential correspondence + exact-Fraction oracle",
   ref="DESIGN.md §2 C14")
@@ -231,10 +234,13 @@ claim("C15",
 claim("C16",
   text="Lean theorems: update settles exactly the positions with expiry <= now on the hourly grid, one Expired and at most one Deliver record each, payoff = round(contracts x |S-K|/S) "
        "- round(min(0.015 % x contracts, 12.5 % x contracts x round(mark))) when in the money and above the fee, else nothing; off the grid update does nothing; trades are refused "
-       "on bars without option data; through the bar loop (any bar grid, every context) a held position survives every bar before the first on-grid bar at or after expiry, is removed "
-       "there, never reappears, exactly one Expired record. Tied to the code by whole-run differential execution of a real Actuator.run with a minutely Uniswap co-market and an "
+       "on bars without option data; through the bar loop with arbitrary interleavings of accepted/rejected buys and sells of any instruments (the followed one included): per bar "
+       "exactly the due positions are removed with one Expired record each; over any run records = settlements; with the instrument's expiry fixed by the data there is no record "
+       "before the first on-grid bar at/after expiry, one record there if the position still exists, and no return once delisted. Tied to the code by whole-run differential execution of a real Actuator.run with a minutely Uniswap co-market and an "
        "oracle recomputed from the data frames and the strategy's ledger.",
-  note="The run-level exactly-once theorem is for hold runs (no trading of that instrument in between); per-bar theorems cover bars with trades. The payoff ratio is numpy float on "
+  note="Run-level exactly-once holds for arbitrary trade interleavings (Proofs/C16/General.lean); the earlier hold-run and not-traded theorems are instances. check_transaction looks "
+       "at the listing (in book, state open), never at the expiry: an expired instrument still listed as open can be bought and is settled by the same bar's update (witnessed); "
+       "the 'never returns' clause assumes delisting. A strategy calling update() itself is excluded. The payoff ratio is numpy float on "
        "book rows and Decimal on the fallback price, both modelled; theorems use exact reals, float last-bit deviation measured (0 observed after rounding to 1e-6). Fix: 9b40b72.",
   technique="Lean 4 proof (induction over bar lists) + whole-run differential execution + data-frame oracle",
   ref="DESIGN.md §2 C16")
